@@ -333,6 +333,10 @@ pub fn sampled(
             ctx.ordinal = k as u64 + 1;
             ctx.breadcrumb(&format!("{}|{}", cfg.name, st.label()), k as u64);
             let mut case = arrange(ctx, cfg, st);
+            if ctx.leaks_ok_default {
+                case.leaks_ok = true;
+                case.check_clones = false;
+            }
             case.desc = format!("{}|{}|sample#{}", cfg.name, st.label(), k);
             let mut nontrivial = false;
             let mut skipped = false;
@@ -1224,6 +1228,9 @@ pub fn fault_enum(
     gen: &dyn Fn(&mut Case, usize, bool) -> Vec<Vec<Op>>,
     stride: usize,
 ) {
+    if ctx.sampled && ctx.only.is_none() {
+        return fault_sampled(ctx, family, cfgs, l, gen);
+    }
     ctx.begin_family(family);
     let full = ctx.thorough();
     for cfg in cfgs {
@@ -1278,40 +1285,114 @@ pub fn fault_enum(
                     ctx.stats.bump("user_code_calls_enumerated", n_calls);
                     // 2. the k-th invocation panics
                     for k in 1..=n_calls {
-                        let mut case = arrange(ctx, cfg, st);
-                        case.leaks_ok = true;
-                        case.check_clones = false;
-                        case.desc = format!("{}|{}|#{}|fault@{k}/{n_calls}", cfg.name, st.label(), ordinal);
-                        for pre in &seq[..seq.len() - 1] {
-                            case.step_quiet(ctx, pre);
-                        }
-                        reg::fault_arm(k);
-                        let out = case.rig.exec(op);
-                        let (_, fired, site) = reg::fault_end();
-                        let desc = format!("{} | {op} [panic injected in {}]", case.desc, site.unwrap_or("-"));
-                        if fired {
-                            ctx.stats.bump("faults_injected", 1);
-                            ctx.stats.bump(&format!("faults_in_{}", site.unwrap_or("?")), 1);
-                            if !out.panicked {
-                                case.failed = true;
-                                ctx.report(&cfg.name, "harness", &opsig(op), "injected panic did not propagate".into(), &desc);
-                            }
-                        }
-                        for v in 0..NVECS {
-                            case.resync(v);
-                        }
-                        let d0 = case.desc.clone();
-                        case.desc = desc.clone();
-                        case.post_check(ctx, &opsig(op), &desc, &[0, 1, 2], None);
-                        if !case.failed {
-                            case.desc = format!("{desc} | follow-up");
-                            follow_up(ctx, &mut case);
-                        }
-                        case.desc = d0;
-                        case.finish(ctx);
-                        record(ctx, cfg, &st.label(), std::slice::from_ref(op), fired, &desc);
+                        run_fault_case(ctx, cfg, st, seq, k, n_calls, &format!("#{ordinal}"));
                     }
                 }
+            }
+        }
+    }
+}
+
+/// One fault-injected execution: the `k`-th user-code invocation inside `op` panics.
+fn run_fault_case(ctx: &mut Ctx, cfg: &CfgEntry, st: VState, seq: &[Op], k: u64, n_calls: u64, tag: &str) {
+    let op = seq.last().unwrap();
+    let mut case = arrange(ctx, cfg, st);
+    case.leaks_ok = true;
+    case.check_clones = false;
+    case.desc = format!("{}|{}|{tag}|fault@{k}/{n_calls}", cfg.name, st.label());
+    for pre in &seq[..seq.len() - 1] {
+        case.step_quiet(ctx, pre);
+    }
+    reg::fault_arm(k);
+    let out = case.rig.exec(op);
+    let (_, fired, site) = reg::fault_end();
+    let desc = format!("{} | {op} [panic injected in {}]", case.desc, site.unwrap_or("-"));
+    if fired {
+        ctx.stats.bump("faults_injected", 1);
+        ctx.stats.bump(&format!("faults_in_{}", site.unwrap_or("?")), 1);
+        if !out.panicked {
+            case.failed = true;
+            ctx.report(&cfg.name, "harness", &opsig(op), "injected panic did not propagate".into(), &desc);
+        }
+    }
+    for v in 0..NVECS {
+        case.resync(v);
+    }
+    let d0 = case.desc.clone();
+    case.desc = desc.clone();
+    case.post_check(ctx, &opsig(op), &desc, &[0, 1, 2], None);
+    if !case.failed {
+        case.desc = format!("{desc} | follow-up");
+        follow_up(ctx, &mut case);
+    }
+    case.desc = d0;
+    case.finish(ctx);
+    record(ctx, cfg, &st.label(), std::slice::from_ref(op), fired, &desc);
+}
+
+/// Tool-mode variant of `fault_enum`: random (state, operation, k) triples.
+pub fn fault_sampled(ctx: &mut Ctx, family: &str, cfgs: &[CfgEntry], l: usize, gen: &dyn Fn(&mut Case, usize, bool) -> Vec<Vec<Op>>) {
+    ctx.begin_family(family);
+    let cfgs: Vec<&CfgEntry> = cfgs.iter().filter(|c| ctx.wants_cfg(c) && c.elem.tracked && c.fixed_cap.map_or(true, |c| c >= OTHER_LEN)).collect();
+    if cfgs.is_empty() {
+        return;
+    }
+    let mut rng = Rng::new(ctx.seed ^ crate::util::fnv(family) ^ ((ctx.shard as u64) << 40));
+    let budget = ctx.quota.max(1);
+    let mut done = 0u64;
+    let mut round = ctx.shard;
+    let mut attempts = 0;
+    while done < budget && attempts < budget * 10 && ctx.viols.len() < ctx.max_viols {
+        attempts += 1;
+        let cfg = cfgs[round % cfgs.len()];
+        round += 1;
+        ctx.stats.cfgs.insert(cfg.name.clone());
+        let lens = lengths(cfg, l, false);
+        let len = *rng.pick(&lens);
+        let sts = states_for(cfg, len);
+        let st = *rng.pick(&sts);
+        let seqs = {
+            let mut scratch = arrange(ctx, cfg, st);
+            let o = gen(&mut scratch, len, false);
+            scratch.finish(ctx);
+            o
+        };
+        if seqs.is_empty() {
+            continue;
+        }
+        for _ in 0..3 {
+            let k = rng.below(seqs.len());
+            let seq = &seqs[k];
+            let op = seq.last().unwrap();
+            ctx.breadcrumb(&format!("{}|{}", cfg.name, st.label()), k as u64);
+            let n_calls = {
+                let mut case = arrange(ctx, cfg, st);
+                for pre in &seq[..seq.len() - 1] {
+                    case.step_quiet(ctx, pre);
+                }
+                reg::fault_count_begin();
+                let exp = case.model.apply(op);
+                let out = case.rig.exec(op);
+                let (mut n, _, _) = reg::fault_end();
+                if out.panicked || exp.out.panicked || out.unsupported {
+                    n = 0;
+                }
+                case.leaks_ok = true;
+                for v in 0..NVECS {
+                    case.resync(v);
+                }
+                case.finish(ctx);
+                n
+            };
+            if n_calls == 0 {
+                continue;
+            }
+            ctx.stats.bump("user_code_calls_enumerated", n_calls);
+            let kk = 1 + rng.below(n_calls as usize) as u64;
+            run_fault_case(ctx, cfg, st, seq, kk, n_calls, &format!("sample#{k}"));
+            done += 1;
+            if done >= budget {
+                break;
             }
         }
     }
@@ -1344,6 +1425,13 @@ pub fn lying_ops(case: &mut Case, n: usize, full: bool) -> Vec<Vec<Op>> {
 }
 
 pub fn lying_enum(ctx: &mut Ctx, family: &str, cfgs: &[CfgEntry], l: usize) {
+    if ctx.sampled && ctx.only.is_none() {
+        // leaks are expected with lying iterators: the sampled runner is told so through `leaks_ok_default`
+        ctx.leaks_ok_default = true;
+        sampled(ctx, family, cfgs, l, false, &lying_ops);
+        ctx.leaks_ok_default = false;
+        return;
+    }
     ctx.begin_family(family);
     let full = ctx.thorough();
     for cfg in cfgs {
